@@ -103,5 +103,7 @@ Spec == Init /\ [][Next]_vars
 CleanAfterDocument == w = InitW
 (* whatever was processed before, every document gives what it gives in a fresh interpreter *)
 ResultIndependent == hist # <<>> => lastobs = Process(hist[Len(hist)], InitW).obs
+(* the argument-scanning switch is balanced inside a document too: an assignment is never skipped *)
+AssignmentsRun == \A k \in 1..Len(lastobs) : lastobs[k] # "notassigned"
 Emit == hist # <<>> => PrintT(<<"BEH", ToJson([hist |-> hist, obs |-> lastobs, w |-> w])>>)
 =============================================================================
